@@ -301,8 +301,28 @@ def c19_history(res: StreamResult, script: Script | None, d: Path, sid: str, sav
               "how": "in an empty directory call save_json(dir/'data.json', name, rand_output(seed, big)[0]) for every element of "
                      "`history`, then read the file back (check.py C19 --replay <this file>)"}
         before = p.read_bytes() if p.exists() else None
+        via = sv.get("via", "direct")
+        res.count(f"via:{via}")
         try:
-            S.save_json(p, name, out)
+            if via == "alias":
+                alias = d.parent / (d.name + "_alias")
+                if not alias.exists():
+                    os.symlink(d, alias)
+                S.save_json(alias / TARGET, name, out)
+            elif via == "fork":
+                pid = os.fork()
+                if pid == 0:                      # child: save and leave without running any parent clean-up
+                    code = 0
+                    try:
+                        S.save_json(p, name, out)
+                    except BaseException:         # noqa: BLE001
+                        code = 1
+                    os._exit(code)
+                _, status = os.waitpid(pid, 0)
+                if status != 0:
+                    raise RuntimeError("save_json failed in a forked child process")
+            else:
+                S.save_json(p, name, out)
         except Exception as e:           # noqa: BLE001
             res.violation(f"save_json raised {type(e).__name__}: {e}", rp, key="save_json:raises")
             break
@@ -385,7 +405,10 @@ def run_c19(tier, budget: Budget, rnd) -> StreamResult:
             for step in range(rnd.randint(1, 8)):
                 u = rnd.random()
                 name = rnd.choice(saves)["name"] if saves and u < 0.25 else rnd.choice(NAMES) if u < 0.8 else f"run-{step}"
-                saves.append({"name": name, "seed": rnd.randint(0, 10 ** 9), "big": rnd.random() < 0.08})
+                # how the save reaches the file: directly, through another spelling of the same path (a symlinked directory),
+                # or from a forked child process — "any sequence of saves" is not restricted to one process and one spelling
+                via = rnd.choice(["direct", "direct", "direct", "alias", "fork"]) if h % 3 == 1 else "direct"
+                saves.append({"name": name, "seed": rnd.randint(0, 10 ** 9), "big": rnd.random() < 0.08, "via": via})
             info = c19_history(res, script, base / f"h{h}", f"s{h}", saves)
             if info["repeated"] and info["names"] >= 2 and info["has_nan"]:
                 res.nontrivial.add(("hist", h))
